@@ -4,6 +4,21 @@ manifest is valid at every commit)."""
 import json, os, sys
 
 CHECKS = {
+ "C13": ("exploration",
+         "bounded-exhaustive enumeration of cell strings against layout predicates (small-scope input model checking)",
+         "Every string over a 6-cell alphabet up to length 6 (quick) / 8 (thorough) and over a 9-cell alphabet with wide, NBSP, combining and tab cells up to length 4 / 6, through Wrap, DumbWrap, Pad, Indent, Snip and SetLength at every width 1..5 / 1..7, each output judged by predicates transcribed from the statement on an independently tokenized cell list. Complete within the bound; the interactions of long words, blank runs, explicit newlines and style prefixes that break wrapping code all occur at these sizes.",
+         "Trusted: lib/oracle tokenizer and the predicates in checks/c13; length is counted in runes as servitor does; strings longer than the bound and alphabets beyond the nine cells are not covered.",
+         "DESIGN.md §3 C13"),
+ "C16": ("exploration",
+         "complete enumeration of CenterVertically geometries; UI frames from the bounded UI exploration",
+         "All geometries prefix 0..7 x centred 1..7 x suffix 0..7 x height 2..10 (thorough: 0..12 / 1..12 / 0..12 / 2..30) with distinct line tokens: exactly h lines, block centred, rows above/below are the tail of the prefix / head of the suffix, ReplaceLastLine replaces only the last line.",
+         "Trusted: the expected-frame construction in checks/c16/geom.go. Frames from the real UI are added by the UI exploration when present in the evidence (ui_frames).",
+         "DESIGN.md §3 C16"),
+ "C17": ("exploration",
+         "complete product of a JSON value grammar and all typed accessors against a reference classifier",
+         "About 2 100 JSON values (numerals around every power of two to 2^70 in three notations, all 65 control code points in strings, timestamps, URLs, media types, arrays, objects) x 4 key states x 8 accessors plus all GetMarkup pairs, decoded by encoding/json as jtp does, compared with a reference classifier written from the statement (absent / wrong type / unparseable / value, exact integer value via math/big).",
+         "Trusted: the reference classifier in checks/c17; encoding/json, time.Parse, url.Parse are explored through, not modelled.",
+         "DESIGN.md §3 C17"),
  # id: (category, technique, level text, level note, design ref)
  "C18": ("model_checking",
          "explicit-state search over operation sequences on the real History/Feed against list-based reference models",
